@@ -52,8 +52,9 @@ VARIABLES store,  \* committed contents: StoreKeys -> Vals \cup {Absent}
           pend,   \* writes of the open Update/BulkWrite: StoreKeys -> Vals \cup {Absent, Untouched}
           hist,   \* the calls made so far, each with its answer
           n,      \* number of calls after the preload
-          cls     \* call class picked for the next call ("" = none; only if Phased)
-vars == <<store, mode, it, pend, hist, n, cls>>
+          cls,    \* call class picked for the next call ("" = none; only if Phased)
+          done    \* the history is complete and has been handed over (see Finish)
+vars == <<store, mode, it, pend, hist, n, cls, done>>
 
 Absent    == "ABSENT"
 Untouched == "UNTOUCHED"
@@ -86,6 +87,7 @@ InitAll    == [StoreKeys -> Vals \cup {Absent}]
 \* every subset of the keys present, values alternating (keeps the family small)
 InitFew    == { [k \in StoreKeys |-> IF k \in KS THEN (IF Len(k) = 1 THEN "x" ELSE "") ELSE Absent] :
                   KS \in { {}, {<<1>>}, {<<1, 2>>, <<2>>}, StoreKeys } }
+InitOne    == { [k \in StoreKeys |-> IF k = <<1>> THEN "x" ELSE IF k = <<1, 2>> THEN "" ELSE Absent] }
 InitEmptyAndFull == { EmptyStore, [k \in StoreKeys |-> IF Len(k) = 1 THEN "x" ELSE ""] }
 InitSubsets == { [k \in StoreKeys |-> IF k \in KS THEN (IF Len(k) = 1 THEN "x" ELSE "") ELSE Absent] : KS \in SUBSET StoreKeys }
 
@@ -166,7 +168,7 @@ Ok(op, w)  == op \in Ops /\ <<op, w>> \notin AvoidShapes
 ----------------------------------------------------------------------------
 (* call classes: Pick(c) holds when a call of class c may be made now    *)
 Pick(c)  == n < MaxLen /\ (IF Phased THEN cls = c ELSE cls = "")
-Push(st) == hist' = Append(hist, st) /\ n' = n + 1 /\ cls' = ""
+Push(st) == hist' = Append(hist, st) /\ n' = n + 1 /\ cls' = "" /\ done' = FALSE
 
 \* ---- top level
 GetC  == { k \in Targets : Ok("Get", PW(store, k)) }
@@ -316,15 +318,15 @@ ClassesNow ==
        (IF TxGetC # {} THEN {"TxGet"} ELSE {}) \cup (IF TxHasC # {} THEN {"TxHasKey"} ELSE {})
        \cup (IF TxSetC # {} THEN {"TxSet"} ELSE {}) \cup (IF TxDelC # {} THEN {"TxDelete"} ELSE {})
        \cup (IF TxViewOk THEN {"TxView"} ELSE {}) \cup (IF Ok("Commit", "") THEN {"Commit"} ELSE {})
-       \* an abort ends the history: offered on every second call only, so that walks live longer
-       \cup (IF Ok("Abort", "") /\ n % 2 = 1 THEN {"Abort"} ELSE {})
+       \* an abort ends the history: offered on every fifth call only, so that walks live longer
+       \cup (IF Ok("Abort", "") /\ n % 5 = 4 THEN {"Abort"} ELSE {})
   ELSE IF mode = "bulk" THEN
        (IF BulkSetC # {} THEN {"BulkSet"} ELSE {}) \cup (IF Ok("BulkEnd", "") THEN {"BulkEnd"} ELSE {})
-       \cup (IF Ok("BulkAbort", "") /\ n % 2 = 1 THEN {"BulkAbort"} ELSE {})
+       \cup (IF Ok("BulkAbort", "") /\ n % 5 = 4 THEN {"BulkAbort"} ELSE {})
   ELSE {}
 Choose == /\ Phased /\ cls = "" /\ n < MaxLen
           /\ cls' \in ClassesNow
-          /\ UNCHANGED <<store, mode, it, pend, hist, n>>
+          /\ UNCHANGED <<store, mode, it, pend, hist, n, done>>
 
 ----------------------------------------------------------------------------
 Preload(f) == LET q == SelectSeq([i \in 1..Len(SortedStoreKeys) |-> SortedStoreKeys[Len(SortedStoreKeys) + 1 - i]],
@@ -335,9 +337,20 @@ Preload(f) == LET q == SelectSeq([i \in 1..Len(SortedStoreKeys) |-> SortedStoreK
 
 Init == /\ store \in InitFamily
         /\ hist = Preload(store)
-        /\ mode = "top" /\ it = FreshIt /\ pend = NoPend /\ n = 0 /\ cls = ""
+        /\ mode = "top" /\ it = FreshIt /\ pend = NoPend /\ n = 0 /\ cls = "" /\ done = FALSE
 
-Next == \/ Choose
+(* A history is complete when it has MaxLen calls or ended in an abort.  *)
+(* Finish is the only step out of a complete history; the history is     *)
+(* printed in the state it leads to.  (In -simulate mode TLC evaluates   *)
+(* invariants on every successor it generates, not only on the one the   *)
+(* walk takes: printing at the successor of the leaf prints exactly the  *)
+(* walks.)                                                               *)
+IsLeaf == (n = MaxLen \/ mode = "end") /\ cls = "" /\ ~done
+Finish == /\ IsLeaf
+          /\ done' = TRUE
+          /\ UNCHANGED <<store, mode, it, pend, hist, n, cls>>
+
+Next == \/ Choose \/ Finish
         \/ Get \/ HasKey \/ Set \/ Delete \/ DeletePrefix \/ ViewBegin \/ UpdBegin \/ BulkBegin
         \/ Seek \/ SeekReverse \/ Next1 \/ ItGet \/ ViewEnd
         \/ TxGet \/ TxHasKey \/ TxSet \/ TxDelete \/ TxViewBegin \/ Commit \/ Abort
@@ -351,7 +364,7 @@ TypeOK == /\ store \in [StoreKeys -> Vals \cup {Absent}]
           /\ pend \in [StoreKeys -> Vals \cup {Absent, Untouched}]
           /\ mode \in {"top", "view", "upd", "txview", "bulk", "end"}
           /\ it.st \in {"fresh", "at", "inv"} /\ it.dir \in {"f", "r"}
-          /\ n \in 0..MaxLen
+          /\ n \in 0..MaxLen /\ done \in BOOLEAN
 ModelOK == /\ it.st = "at" => it.k \in Live(store)
            /\ mode \in {"top", "view"} => pend = NoPend
            /\ mode = "txview" => pend = NoPend
@@ -364,12 +377,10 @@ ModelOK == /\ it.st = "at" => it.k \in Live(store)
               IN  /\ Len(sn) = Cardinality(Live(store))
                   /\ \A i \in 1..(Len(sn) - 1) : LexLess(sn[i].k, sn[i + 1].k)
 
-(* emission of complete histories: a history is complete when it has    *)
-(* MaxLen calls or ended in an abort.  An open session at the end is     *)
+(* emission of complete histories.  An open session at the end is       *)
 (* closed by the harness with a nil return (commit): f is the committed  *)
 (* contents after that, fo = TRUE when they are open (abort).            *)
-IsLeaf  == (n = MaxLen \/ mode = "end") /\ cls = ""
-EmitBeh == IsLeaf => Emit("beh", [h  |-> hist,
+EmitBeh == done => Emit("beh", [h  |-> hist,
                                   m  |-> mode,
                                   fo |-> (mode = "end"),
                                   f  |-> Snapshot(IF mode \in {"upd", "txview", "bulk"} THEN EffStore ELSE store)])
